@@ -440,11 +440,73 @@ def currently_exiting_context(frame: types.FrameType) -> Optional[ExitingContext
         # - if the with stmt has no body, there might be a NOP to attach
         #   line number information to
         # Neither of these are covered by the exception handler block.
-        for _, end, target, *_ in _parse_exception_table(frame.f_code):
-            if end == offs or (
-                end == offs - 2 and code[offs] in (op["SWAP"], op["NOP"])
+        #
+        # That isn't always true, though: if the body of the with block ends
+        # with (say) a try/except statement or a conditional return, the
+        # instruction that physically precedes the __exit__ call sequence
+        # might belong to an except handler or be the end of some unrelated
+        # block, with control arriving here via a jump instead. So rather than
+        # looking at the physically preceding instruction, we look at each
+        # instruction that can transfer control to the start of the __exit__
+        # call sequence (by falling through or by jumping). Any such
+        # instruction is still inside the body of the with block we're exiting,
+        # possibly nested within some try blocks (but not within any nested
+        # with block, which would need to call its own __exit__ first).
+        # Therefore, the with block we're exiting is the innermost one whose
+        # handler covers that instruction.
+        handlers = list(_parse_exception_table(frame.f_code))
+
+        def innermost_with_handler(pos: int) -> Optional[int]:
+            # Follow the chain of exception handlers that an exception raised
+            # at *pos* would visit, returning the first one that is the
+            # cleanup handler for a with block (PUSH_EXC_INFO, WITH_EXCEPT_START)
+            for _ in range(len(handlers) + 1):
+                for start, end, target, *_ in handlers:
+                    if start <= pos <= end:
+                        break
+                else:
+                    return None
+                if (
+                    code[target] == op["PUSH_EXC_INFO"]
+                    and code[target + 2] == op["WITH_EXCEPT_START"]
+                ):
+                    return target
+                pos = target
+            return None  # pragma: no cover
+
+        # The __exit__ call sequence can be entered at its first LOAD_CONST,
+        # or at any SWAP or NOP that directly precedes that.
+        entry_points = {offs + 2}
+        while offs >= 0 and code[offs] in (op["SWAP"], op["NOP"]):
+            entry_points.add(offs)
+            offs -= 2
+        no_fallthrough = (
+            # fmt: off
+            "JUMP_FORWARD", "JUMP_BACKWARD", "JUMP_BACKWARD_NO_INTERRUPT",
+            "RETURN_VALUE", "RETURN_CONST", "RAISE_VARARGS", "RERAISE",
+            # fmt: on
+        )
+        prev: Optional[dis.Instruction] = None
+        for insn in dis.get_instructions(frame.f_code):
+            predecessor: Optional[int] = None
+            if (
+                insn.offset in entry_points
+                and prev is not None
+                and prev.offset not in entry_points
+                and prev.opname not in no_fallthrough
             ):
-                return ExitingContext(is_async=is_async, cleanup_offset=target)
+                predecessor = prev.offset
+            elif (
+                insn.opcode in dis.hasjrel or insn.opcode in dis.hasjabs
+            ) and insn.argval in entry_points:
+                predecessor = insn.offset
+            if predecessor is not None:
+                cleanup_offset = innermost_with_handler(predecessor)
+                if cleanup_offset is not None:
+                    return ExitingContext(
+                        is_async=is_async, cleanup_offset=cleanup_offset
+                    )
+            prev = insn
         warnings.warn(
             f"Surprise during analysis of {frame.f_code!r}: couldn't find an "
             f"exception table entry ending at {offs} just before the call to "
